@@ -36,7 +36,6 @@ Section SolveAllG.
   Hypothesis Hfe : fm_endo fm = endo_nums d.
   Hypothesis Hfl : fm_lags fm = Z.of_nat (lags d).
   Hypothesis Hfd : fm_leads fm = Z.of_nat (leads d).
-  Hypothesis Hmax : 0 < max_iter o.
   Hypothesis Hmm : min_iter o <= max_iter o.
   Hypothesis Hshape : forall idx v, shape n m v -> shape n m (evf idx v).
   Hypothesis Hec : w_ec (errors o) = Some ec.
@@ -66,12 +65,16 @@ Section SolveAllG.
   Definition sc_off (p : nat) : Prop :=
     errors o = ERaise /\ offset o <> 0 /\ (Z.of_nat p + offset o < 0 \/ Z.of_nat n <= Z.of_nat p + offset o).
 
+  (* 5. the period has no room for the lags / leads: IndexError from both, whatever the options (fix 1354783) *)
   Definition period_okG (p : nat) (v : vals) : Prop :=
-    (p < n)%nat /\ feasible d n p = true /\ (sc_run p v \/ sc_regime p v \/ sc_pre p v \/ sc_off p).
+    (p < n)%nat /\
+    (feasible d n p = false \/ (feasible d n p = true /\ (sc_run p v \/ sc_regime p v \/ sc_pre p v \/ sc_off p))).
 
   (* whether the template's solve loop stops after this period *)
   Definition stops (r : fout num) : bool :=
-    if fo_code r =? 0 then negb (fo_conv r) && fail_raise o else is_raise (errors o).
+    if fo_code r =? 0 then negb (fo_conv r) && fail_raise o
+    else if (c_below <=? fo_code r) && (fo_code r <=? c_leads) then true
+    else is_raise (errors o).
 
   (* every period the solve reaches, on the store the previous ones leave *)
   Fixpoint solve_okG (ps : list nat) (v : vals) : Prop :=
@@ -98,6 +101,9 @@ Section SolveAllG.
         period_args p v = mkFout v' false x c_pre_existing /\
         solve_t_M d o (Z.of_nat p) (mkState v st it lg) = (mkState v' st it lg, Raise (SolutionError None)))
     \/ (errors o = ERaise /\ exists x c, (c = c_off_pre \/ c = c_off_post) /\
+        period_args p v = mkFout v false x c /\
+        solve_t_M d o (Z.of_nat p) (mkState v st it lg) = (mkState v st it lg, Raise IndexError))
+    \/ (exists x c, (c = c_lags \/ c = c_leads) /\
         period_args p v = mkFout v false x c /\
         solve_t_M d o (Z.of_nat p) (mkState v st it lg) = (mkState v st it lg, Raise IndexError)).
 
@@ -142,12 +148,20 @@ Section SolveAllG.
   Lemma period_cases p (v : vals) st it lg :
     shape n m v -> length st = n -> period_okG p v -> PR p v st it lg.
   Proof.
-    intros Hs Hlen (Hp & Hfeas & Hsc).
+    intros Hs Hlen (Hp & [Hinf|(Hfeas & Hsc)]).
+    { (* no room for the lags / leads *)
+      do 5 right. exists undef_iter, (if (p <? lags d)%nat then c_lags else c_leads). split; [|split].
+      - destruct (p <? lags d)%nat; [left|right]; reflexivity.
+      - unfold FSolveAll.period_args, FSolve.t_solve_t. rewrite (shape_ncols num n m v Hs Hm), t_index_idem.
+        rewrite (t_guard_feasible fm d n p Hfl Hfd Hp), Hinf. destruct (p <? lags d)%nat; reflexivity.
+      - assert (Hlt : (max_iter o <? min_iter o) = false) by lia.
+        unfold Solver.solve_t_M. cbn [status vals_of log iters]. rewrite Hlt, Hlen.
+        rewrite (py_pos_nonneg n (Z.of_nat p)) by lia. rewrite Nat2Z.id, Hinf. reflexivity. }
     pose proof (guard0 p Hp Hfeas) as Hg.
     destruct Hsc as [Hrun|[Hreg|[Hpre|Hoffs]]].
     - (* finite run: FSolveAll.period_spec *)
       left. destruct Hrun as (Hoff & Hf0 & Hrun).
-      destruct (period_spec num sub absf ltb isfin zero evf ev fm d o n m ec fl Hm Hchk Hend Hfe Hfl Hfd Hmax Hmm Hshape Hec Hfr
+      destruct (period_spec num sub absf ltb isfin zero evf ev fm d o n m ec fl Hm Hchk Hend Hfe Hfl Hfd Hmm Hshape Hec Hfr
                   p v st it lg Hs Hlen (conj Hp (conj Hfeas (conj Hoff (conj Hf0 Hrun))))) as (v' & b & k & lg' & H1 & _ & H2).
       exists v', b, k, lg'. split; assumption.
     - (* the regime *)
@@ -159,14 +173,14 @@ Section SolveAllG.
       { destruct Hreg as (_ & R2 & _). destruct (errors o) eqn:E; try reflexivity.
         cbn [is_raise andb]. unfold FSolveSim.chk in R2. cbn [FSolveSim.iterv] in R2. rewrite R2 by (left; reflexivity). reflexivity. }
       pose proof (sim num sub absf ltb isfin zero evf ev (no_hook num) fm d o (Z.of_nat p) p n m ec v0 N Hev Haft
-                    (Hshape (Z.of_nat p + 1)) Hp Hm Hg Hchk Hend Hfe Hec N 0%nat (lg ++ [EvBefore (Z.of_nat p)]) (-1)
+                    (Hshape (Z.of_nat p + 1)) Hp Hm Hg Hchk Hend Hfe Hec N 0%nat (lg ++ [EvBefore (Z.of_nat p)]) 0
                     ltac:(lia) Hs0 Hreg) as Hsim.
       pose proof (loop_results num sub absf ltb isfin zero evf ev (no_hook num) d o (Z.of_nat p) p n m ec v0 N Hev Haft Hp Hm Hec
                     N 0%nat (lg ++ [EvBefore (Z.of_nat p)]) ltac:(lia) Hreg) as Hres.
       cbn [FSolveSim.iterv] in Hsim, Hres. unfold FSolveSim.chk in Hsim, Hres. cbn [FSolveSim.iterv] in Hsim, Hres.
       change (Z.of_nat 1) with 1 in Hsim.
-      assert (HN : (N =? 0)%nat = false) by (apply Nat.eqb_neq; lia). rewrite HN in Hsim.
-      assert (Hpa : period_args p v = fo_of num (loop d o (Z.of_nat p) p N 1 v0 (get_check d v0 p) (lg ++ [EvBefore (Z.of_nat p)])) false (-1)).
+      rewrite fo_of_code0 in Hsim.
+      assert (Hpa : period_args p v = fo_of num (loop d o (Z.of_nat p) p N 1 v0 (get_check d v0 p) (lg ++ [EvBefore (Z.of_nat p)])) false 0).
       { unfold FSolveAll.period_args.
         rewrite (t_solve_t_spec num sub absf ltb isfin zero evf fm d o (Z.of_nat p + 1) p n m ec v Hs Hm Hp Hchk Hend Hfe
                    (t_index_idem n p) Hg Hoff).
@@ -189,7 +203,7 @@ Section SolveAllG.
       + rewrite (py_head p v st it lg Hp Hlen Hfeas). cbv zeta. rewrite (pre_eq p v Hoff). rewrite Her, Hnf. reflexivity.
     - (* offset outside the span *)
       destruct Hoffs as (Her & Hne & Hout).
-      right. right. right. right. split; [exact Her|].
+      right. right. right. right. left. split; [exact Her|].
       exists undef_iter, (if Z.of_nat p + 1 + offset o <? 1 then c_off_pre else c_off_post). split; [|split].
       + destruct (Z.of_nat p + 1 + offset o <? 1); [left|right]; reflexivity.
       + unfold FSolveAll.period_args, FSolve.t_solve_t. rewrite (shape_ncols num n m v Hs Hm), t_index_idem, Hg.
@@ -205,7 +219,8 @@ Section SolveAllG.
   Proof. rewrite Hfr. destruct fl; vm_compute in Hfc; inversion Hfc; reflexivity. Qed.
 
   Lemma stops_spec (r : fout num) :
-    (if fo_code r =? 0 then negb (fo_conv r) && (fc =? c_fail_raise) else ec =? c_ec_raise) = stops r.
+    (if fo_code r =? 0 then negb (fo_conv r) && (fc =? c_fail_raise)
+     else if (c_below <=? fo_code r) && (fo_code r <=? c_leads) then true else ec =? c_ec_raise) = stops r.
   Proof. unfold stops. rewrite fc_raise_iffG, ec_raise_iffG. reflexivity. Qed.
 
   (* the two loops, from any intermediate point *)
@@ -227,7 +242,7 @@ Section SolveAllG.
       cbn [map FSolve.t_solve_loop FSolve.py_solve_loop]. fold (period_args p v) in *.
       rewrite (stops_spec (period_args p v)).
       destruct Hpr as [(v1 & b & k & lg' & Hpa & Hpy)|[(He & v1 & k & lg' & Hpa & Hpy)|[(He & v1 & k & lg' & Hpa & Hpy)|
-                       [(He & v1 & x & Hpa & Hpy)|(He & x & c & Hc & Hpa & Hpy)]]]];
+                       [(He & v1 & x & Hpa & Hpy)|[(He & x & c & Hc & Hpa & Hpy)|(x & c & Hc & Hpa & Hpy)]]]]];
         rewrite Hpa in *; rewrite Hpy; unfold stops in *; cbn [fo_code fo_conv fo_iter fo_vals] in *.
       + (* '.' or 'F' *)
         change (0 =? 0) with true in *. cbv iota in *.
@@ -269,6 +284,18 @@ Section SolveAllG.
         * change (42 =? 0) with false in *. cbv iota in *.
           cbn [FSolve.w_results]. rewrite Ws, Wr, Wp, Wop, Woq. change (42 =? 0) with false. change (42 =? 21) with false. change (42 =? 31) with false.
           change (42 =? 41) with false. change (42 =? 42) with true. cbn [andb fst snd]. split; [reflexivity|]. repeat split.
+      + (* no room for the lags / leads *)
+        destruct template_codes as (_ & _ & _ & _ & _ & Cb & Ca & Cl & Cd & _).
+        assert (Wi : w_s_index = [11; 12; 13; 14]) by reflexivity.
+        destruct Hc as [-> | ->]; [rewrite Cl in *|rewrite Cd in *]; rewrite ?Cb, ?Cd, ?Cl in *.
+        * change (13 =? 0) with false in *. change ((11 <=? 13) && (13 <=? 14)) with true in *. cbv iota in *.
+          cbn [FSolve.w_results]. rewrite Ws, Wr, Wp, Wop, Woq, Wsk, Wi.
+          change (13 =? 0) with false. change (13 =? 21) with false. change (13 =? 31) with false. change (13 =? 41) with false.
+          change (13 =? 42) with false. change (13 =? 22) with false. cbn [andb existsb Z.eqb Pos.eqb orb fst snd]. split; [reflexivity|]. repeat split.
+        * change (14 =? 0) with false in *. change ((11 <=? 14) && (14 <=? 14)) with true in *. cbv iota in *.
+          cbn [FSolve.w_results]. rewrite Ws, Wr, Wp, Wop, Woq, Wsk, Wi.
+          change (14 =? 0) with false. change (14 =? 21) with false. change (14 =? 31) with false. change (14 =? 41) with false.
+          change (14 =? 42) with false. change (14 =? 22) with false. cbn [andb existsb Z.eqb Pos.eqb orb fst snd]. split; [reflexivity|]. repeat split.
   Qed.
 
   (* FortranEngine.solve = SolverMixin.solve: same list of return values or the same exception class, same values,
